@@ -62,3 +62,35 @@ Definition spec_dispatch_impls : list (string * string) := [
 
 Definition dispatch_impls_hold (gen : list (string * string)) : bool :=
   list_eqb (pair_eqb String.eqb String.eqb) gen spec_dispatch_impls.
+
+(* the variants of the three request enumerations, in declaration order (derive(Arbitrary) selects by index) *)
+Fixpoint find_enum (name : string) (l : list rdecl) : option (list (string * cfg * list ty)) :=
+  match l with
+  | [] => None
+  | REnum n _ _ _ vs :: r => if String.eqb n name then Some vs else find_enum name r
+  | _ :: r => find_enum name r
+  end.
+
+Definition enum_variants (l : list (cfg * rdecl)) (f : feats) (name : string) : list (string * list ty) :=
+  match find_enum name (strip f l) with
+  | Some vs => flat_map (fun v => match v with (n, c, ts) => if cfg_eval f c then [(n, ts)] else [] end) vs
+  | None => []
+  end.
+
+Definition ctap2_variants : list (string * list ty) :=
+  [("MakeCredential", [TNamed "ctap2::make_credential::Request"]); ("GetAssertion", [TNamed "ctap2::get_assertion::Request"]);
+   ("GetNextAssertion", []); ("GetInfo", []); ("ClientPin", [TNamed "ctap2::client_pin::Request"]); ("Reset", []);
+   ("CredentialManagement", [TNamed "ctap2::credential_management::Request"]); ("Selection", []);
+   ("LargeBlobs", [TNamed "ctap2::large_blobs::Request"]); ("Vendor", [TNamed "operation::VendorOperation"])].
+Definition ctap1_variants : list (string * list ty) :=
+  [("Register", [TNamed "ctap1::register::Request"]); ("Authenticate", [TNamed "ctap1::authenticate::Request"]); ("Version", [])].
+Definition auth_variants : list (string * list ty) :=
+  [("Ctap1", [TNamed "ctap1::Request"]); ("Ctap2", [TNamed "ctap2::Request"])].
+
+Definition spec_request_enums : list (string * list (string * list ty)) :=
+  [("ctap2::Request", ctap2_variants); ("ctap1::Request", ctap1_variants); ("authenticator::Request", auth_variants)].
+
+Definition variants_eqb (a b : list (string * list ty)) : bool := list_eqb (pair_eqb String.eqb (list_eqb ty_eqb)) a b.
+
+Definition request_enums_hold (decls : feats -> list (cfg * rdecl)) : bool :=
+  forallb (fun f => forallb (fun p => variants_eqb (enum_variants (decls f) f (fst p)) (snd p)) spec_request_enums) all_feats.
